@@ -238,7 +238,8 @@ func plant(raw M, n metamodel.Node, form string) []byte {
 func posName(n metamodel.Node) string { return strings.TrimPrefix(n.Kind, "Ref:") + "<" + n.Parent }
 
 var entries = []string{"data", "datawithpath", "uri", "file"}
-var roots = []string{"/w/api/root.json", "api/root.json", "root.json"}
+// the last three: characters that mean something in a URL but are ordinary in a file name
+var roots = []string{"/w/api/root.json", "api/root.json", "root.json", "api/ro#ot.json", "api/r%41t.json", "/w/ro?t.json"}
 
 func enumerate(shard, nshards int, yield func(Case)) {
 	raw := jv.Parse(docgen.BaseDoc).(M)
